@@ -104,7 +104,7 @@ impl Format for Wdt {
             let r = rec.call(&ep, || WdtReader::new(&mut cc, WDT_VERSIONS[*vi].1).read());
             rec.max_consumed = rec.max_consumed.max(cc.max_end);
             if let Some(w) = r {
-                rec.call_plain("WdtFile::validate", || {
+                rec.leaf_plain("WdtFile::validate", || {
                     let _ = w.validate();
                     let _ = w.count_existing_tiles();
                     let _ = w.is_wmo_only();
@@ -201,7 +201,7 @@ impl Format for Wdl {
             let r = rec.call(&ep, || parser.parse(&mut cc));
             rec.max_consumed = rec.max_consumed.max(cc.max_end);
             if let Some(f) = r {
-                rec.call("wdl::validate_wdl_file", || wow_wdl::validation::validate_wdl_file(&f));
+                rec.leaf("wdl::validate_wdl_file", || wow_wdl::validation::validate_wdl_file(&f));
             }
         }
     }
